@@ -305,16 +305,20 @@ func (c *checker) runSQL(k *kase) {
 	// filled StorageInterval/IntervalRatio/Interval.
 	ok := c.queryWire(k, "", q1)
 	if ok {
-		for i, o := range overlays {
+		// one of the three planner outcomes per statement, chosen by the text (deterministic); the full product
+		// of planner-set fields with every other field is enumerated in part "model" (query-fields)
+		i := len(k.SQL) % len(overlays)
+		{
+			o := overlays[i]
 			p := *q1
 			p.StorageInterval, p.IntervalRatio = o.si, o.ratio
 			p.Interval = timeutil.Interval(int64(o.si) * int64(o.ratio))
+			p.TimeRange.Start -= p.TimeRange.Start % int64(o.si)
+			p.TimeRange.End -= p.TimeRange.End % int64(o.si)
 			if q1.AutoGroupByTime {
-				p.Interval = timeutil.Interval(p.TimeRange.End-p.TimeRange.Start) / 1000 * 1000
+				p.Interval = timeutil.Interval(p.TimeRange.End-p.TimeRange.Start) + o.si
 			}
-			if !c.queryWire(k, fmt.Sprintf("+planned%d", i), &p) {
-				break
-			}
+			c.queryWire(k, fmt.Sprintf("+planned%d", i), &p)
 		}
 	}
 	// (4) every expression of the statement through stmt.Marshal/Unmarshal on its own
